@@ -1,6 +1,7 @@
 // C19 - ParseSchema updates exactly the members the existing document declares (model-based differential).
 // Oracle: merge_schema() transcribed from the statement (src/common/models.hpp); document read back through the
 // accessor walk and through Dump -> refjson; the document must stay usable (serialise, copy, destroy) under ASan.
+#include <algorithm>
 #include <cstring>
 #include <functional>
 #include <memory>
@@ -86,7 +87,36 @@ static std::string apply_and_check(DocT& doc, MV& model, const std::vector<std::
   return "";
 }
 
-static std::string run(const MV& existing, bool build_by_parse, int alloc_kind, const std::vector<std::string>& texts, Case& c) {
+// give containers of the existing document a history that does not change their value: spare capacity, an empty
+// object that still owns its member buffer (add + remove), lookup maps. mode: 0 none, 1 everything, 2 random (needs s)
+template <class N, class A>
+static void decorate(N& n, A& alloc, int mode, Src* s) {
+  auto yes = [&](unsigned num, unsigned den) { return mode == 1 || (mode == 2 && s && s->coin(num, den)); };
+  if (mode == 0) return;
+  if (n.IsObject()) {
+    if (yes(1, 3)) n.MemberReserve(n.Size() + 3, alloc);
+    if (yes(1, 3)) {
+      N t;
+      t.SetString("temporary member value", 22, alloc);
+      n.AddMember("\x02tmp\x03", std::move(t), alloc);
+      n.RemoveMember("\x02tmp\x03");
+    }
+    if (yes(1, 3)) n.CreateMap(alloc);
+    for (auto it = n.MemberBegin(); it != n.MemberEnd(); ++it) decorate(it->value, alloc, mode, s);
+  } else if (n.IsArray()) {
+    if (yes(1, 3)) n.Reserve(n.Size() + 3, alloc);
+    if (yes(1, 4)) {
+      N t;
+      t.SetString("temporary element", 17, alloc);
+      n.PushBack(std::move(t), alloc);
+      n.PopBack();
+    }
+    for (auto it = n.Begin(); it != n.End(); ++it) decorate(*it, alloc, mode, s);
+  }
+}
+
+static std::string run(const MV& existing, bool build_by_parse, int alloc_kind, const std::vector<std::string>& texts, Case& c,
+                       int decor_mode = 0, Src* src = nullptr) {
   std::string m;
   std::string etext = refjson::write(existing);
   auto go = [&](auto& doc) {
@@ -95,6 +125,7 @@ static std::string run(const MV& existing, bool build_by_parse, int alloc_kind, 
       if (doc.HasParseError()) { m = "ORACLE-SELF-CHECK: existing text rejected"; return; }
     } else
       build(doc, existing, doc.GetAllocator(), true);
+    decorate(static_cast<typename std::remove_reference<decltype(doc)>::type::NodeType&>(doc), doc.GetAllocator(), decor_mode, src);
     MV model = existing;
     m = apply_and_check(doc, model, texts, c);
   };
@@ -152,17 +183,43 @@ static MV gen_side(Src& s, int depth, int& budget, bool root) {
   (void)root;
 }
 
+// a text value derived from the existing value: keeps most declared keys (recursively), changes some kinds, drops some
+// keys, adds undeclared ones - so that deep matched positions with every kind combination are common
+static MV derive(Src& s, const MV& e, int depth, int& budget) {
+  budget--;
+  if (e.k == MV::Obj && !s.coin(1, 6)) {
+    MV t = MV::obj();
+    for (auto& kv : e.o) {
+      if (s.coin(1, 5)) continue;  // omitted by the text
+      MV v = s.coin(2, 3) ? derive(s, kv.second, depth + 1, budget) : gen_side(s, depth + 1, budget, false);
+      t.o.emplace_back(kv.first, v);
+    }
+    size_t extra = (size_t)s.weighted({3, 2, 1});
+    for (size_t i = 0; i < extra; i++) {
+      std::string k = s.oneof(kPool);
+      if (t.find(k)) continue;
+      t.o.emplace_back(k, gen_side(s, depth + 1, budget, false));
+    }
+    if (t.o.size() > 1) std::rotate(t.o.begin(), t.o.begin() + (long)s.index(t.o.size()), t.o.end());
+    return t;
+  }
+  return gen_side(s, depth, budget, false);
+}
+
 static void property(Src& s, Case& c) {
   int be = 4 + c.size / 4, bt = 4 + c.size / 4;
   MV E = gen_side(s, 0, be, true);
+  if (s.coin(2, 3) && E.k != MV::Obj) { int b = be + 4; E = gen_obj(s, 0, b); if (E.o.empty()) E.o.emplace_back("a", MV::uint(1)); }
+  const bool derived = s.coin(2, 3);
+  c.cls(derived ? "text:derived-from-existing" : "text:independent");
   size_t napps = (size_t)s.weighted({6, 3, 1}) + 1;
   std::vector<MV> Ts;
   std::vector<std::string> texts;
   Layout lay;
   lay.ws = (int)s.index(3);
   for (size_t i = 0; i < napps; i++) {
-    int b2 = bt;
-    MV T = gen_side(s, 0, b2, true);
+    int b2 = bt + 6;
+    MV T = derived ? derive(s, i == 0 ? E : Ts.back(), 0, b2) : gen_side(s, 0, b2, true);
     Ts.push_back(T);
     texts.push_back(render(s, T, lay));
   }
@@ -203,7 +260,9 @@ static void property(Src& s, Case& c) {
   };
   c.nt(both_obj(E, Ts[0]) || (E.k == MV::Obj && Ts[0].k == MV::Arr));
   if (c.counting) c.desc("existing=" + printable(refjson::write(E), 90) + " text=" + printable(texts[0], 90));
-  std::string m = run(E, by_parse, ak, texts, c);
+  int decor = (int)s.weighted({2, 1, 3});
+  c.cls(decor == 0 ? "history:plain" : decor == 1 ? "history:all-decorated" : "history:random-decoration");
+  std::string m = run(E, by_parse, ak, texts, c, decor, &s);
   if (!m.empty()) c.fail(m + " | existing=" + printable(refjson::write(E), 300) + " text0=" + printable(texts[0], 300) + " alloc=" + an[ak]);
 }
 
@@ -221,10 +280,11 @@ static void direct(const Fields& f, Case& c) {
     texts.push_back(*t);
   }
   for (int ak = 0; ak < 3; ak++)
-    for (int bp = 0; bp < 2; bp++) {
-      std::string m = run(re.value, bp == 1, ak, texts, c);
-      if (!m.empty()) c.fail(m + " | alloc=" + std::to_string(ak));
-    }
+    for (int bp = 0; bp < 2; bp++)
+      for (int decor = 0; decor < 2; decor++) {
+        std::string m = run(re.value, bp == 1, ak, texts, c, decor, nullptr);
+        if (!m.empty()) c.fail(m + " | alloc=" + std::to_string(ak) + " decorated=" + std::to_string(decor));
+      }
 }
 
 }  // namespace
